@@ -73,17 +73,35 @@ def parsePSection : List String → Option (PTab × List String)
 def unhexBare (s : String) : Option Bytes := if s = "." then some [] else Hex.decodeChars s.toList
 def hexBare (b : Bytes) : String := String.ofList (Hex.encodeChars b)
 
+/-- a message of an encoder case: its bytes, and whether the harness's encoder double fails on it -/
+abbrev EMsg := Bytes × Bool
+
+/-- the encoder-side codec of a case: serialisation is the identity, `Encoder::encode` fails on
+the items the case marks (`f<k>.<hex>`), the compressor is the case's table -/
+def encCodec (tab : ZTab) : Codec EMsg where
+  ser := fun m => m.1
+  serFail := fun m => m.2
+  de := fun b => some (b, false)
+  deErr := 13
+  cz := (tableCodec tab).cz
+  dz := (tableCodec tab).dz
+
 structure EncCase where
   prost : Bool := false
   cfg : EncCfg
   comp : Option Enc      -- configured, before the override
   npolls : Nat
   tab : ZTab
-  evs : List (SrcEv Bytes)
+  evs : List (SrcEv EMsg)
 
-def parseSrcEv (s : String) : Option (SrcEv Bytes) :=
+def parseSrcEv (s : String) : Option (SrcEv EMsg) :=
   match s.toList with
-  | 'i' :: cs => (Hex.decodeChars cs).map .item
+  | 'i' :: cs => (Hex.decodeChars cs).map (fun b => .item (b, false))
+  | 'f' :: cs =>
+    -- `f<k>.<hex>`: what the double wrote before failing (`k` bytes) is dropped by tonic, so the model ignores `k`
+    match (String.ofList cs).splitOn "." with
+    | [_, h] => (Hex.decodeChars h.toList).map (fun b => .item (b, true))
+    | _ => none
   | 'e' :: cs => (String.ofList cs).toNat?.map (fun c => .err ⟨c, .user⟩)
   | ['p'] => some .pending
   | _ => none
@@ -117,7 +135,7 @@ def frameTok (prost : Bool) : FrameOut → String
   | .panic => "panic"
 
 def runEnc (c : EncCase) : String :=
-  String.intercalate " " ((Enc.run (tableCodec c.tab c.prost) c.cfg c.npolls Enc.init c.evs).map (frameTok c.prost))
+  String.intercalate " " ((Enc.run (encCodec c.tab) c.cfg c.npolls Enc.init c.evs).map (frameTok c.prost))
 
 structure DecCase where
   prost : Bool := false
@@ -192,8 +210,8 @@ def obsMsgs (obs : List String) : List Bytes :=
 /-- the tokens that are neither pending nor data/message -/
 def isBad (t : String) : Bool := t = "panic" || t = "busy-loop" || t = "hang"
 
-def itemsOf (evs : List (SrcEv Bytes)) : List Bytes :=
-  evs.filterMap (fun | .item m => some m | _ => none)
+def itemsOf (evs : List (SrcEv EMsg)) : List Bytes :=
+  evs.filterMap (fun | .item m => some m.1 | _ => none)
 
 def dataOf (evs : List BodyEv) : Bytes :=
   (evs.filterMap (fun | .data b => some b | _ => none)).flatten
